@@ -42,6 +42,7 @@ U1 = "1XYZ|1|A|G|10"
 U2 = "1XYZ|1|B|C|-5"
 U3 = "1XYZ|1|A|U|11|||A"
 U4 = "1XYZ|1|A|5MC|12||||6_555"
+U5 = "1XYZ|1|A|U|11"  # same chain, name and number as U3, no insertion code
 LINES = [
     U1 + "\tcWW\t" + U2,
     U2 + "\ttHS\t" + U3,
@@ -69,6 +70,9 @@ LINES = [
     U2 + "\tcWW\t" + U1,
     U1 + "\tcWW\t" + U2,  # exact duplicate of line 0
     U1 + "\t9BPh\t" + U2,
+    # residues told apart by the insertion code only, in both orders of appearance (appended: earlier indices stay valid)
+    U5 + "\tcWW\t" + U3,
+    U3 + "\ts53\t" + U5,
 ]
 
 
